@@ -17,6 +17,7 @@ def plan(tier, seed):
                                               "api.ParquetFile.statistics", "api.statistics"]),
             ch("C06", F, "h_columns_arg", t, ["api.ParquetFile.to_pandas", "api.ParquetFile._get_index",
                                               "util.check_column_names"]),
+            ch("C06", F, "h_range_index", t, ["api.ParquetFile.pre_allocate"]),
             dict(name="C06-lemma-range-index", kind="pyfunc", timeout=300,
                  payload=dict(func="vf.pyshim.lemmas:range_index",
                               kwargs=dict(max_step=6 if tier == "quick" else 40)))]
